@@ -3,7 +3,6 @@
 (* that every model item has a realised counterpart and vice versa).                                          *)
 EXTENDS Crypt
 
-NoDev == {}
 
 \* ------------------------------------------------------------------------------------- configurations
 KeyLensQuick == {40, 64, 128}
@@ -21,7 +20,7 @@ Mk(A, Perms, Ids, Forms, Encs) ==
 Valid(S) == {c \in S : c.V < 4 => c.em}        \* EncryptMetadata exists from V4 on
 
 AllPerms == SUBSET {"print", "modify", "extract"}
-SomePerms == {{}, {"print"}, {"modify"}, {"print", "modify", "extract"}}   \* every pair of flags is told apart
+SomePerms == {{"print"}, {"modify"}, {"extract"}}      \* every flag true once and false twice; every pair of flags told apart
 OnePerm == {{"print", "extract"}}
 BothIds == {"present", "absent"}
 
